@@ -45,12 +45,43 @@ def gen_points(ctx):
     return xs, ws, Ts, ps
 
 
+class _Guard:
+    """typhon.physics.atmosphere with every call guarded: an exception on an input the property quantifies over is
+    reported as a failing input (once per function and exception class) and the value becomes NaN"""
+    def __init__(self, mod, ctx):
+        self._mod, self._ctx, self._seen = mod, ctx, set()
+
+    def __getattr__(self, name):
+        f = getattr(self._mod, name)
+        if not callable(f):
+            return f
+
+        def g(*a, **k):
+            try:
+                return f(*a, **k)
+            except Exception as e:  # noqa
+                sig = f"raises:{name}:{type(e).__name__}"
+                if sig not in self._seen:
+                    self._seen.add(sig)
+                    shown = [(f"{type(x).__name__}{list(np.shape(x))} {np.asarray(x).ravel()[:3].tolist()}" if not callable(x) else x.__name__)
+                             for x in a]
+                    self._ctx.fail("failing-input", f"{name}({', '.join(shown)}) raised {type(e).__name__}: {e} on an input the "
+                                   f"property covers (floats, 0-d arrays and arrays alike)",
+                                   case={"fn": name, "args": shown, "error": f"{type(e).__name__}: {e}"}, signature=sig)
+                return float("nan")
+        return g
+
+
 def enclosure_cases(ctx, atm):
     xs, ws, Ts, ps = gen_points(ctx)
     cases = []
 
+    atm = _Guard(atm, ctx)           # an exception of the implementation on one of these inputs is a failing input
+
     def add(fn, expr, args, value, prep, rtol=1e-11, meta=None):
         v = float(value)
+        if v != v:                   # the call raised (reported by _Guard) or returned NaN (reported by the law sweep)
+            return
         cases.append({"expr": expr, "value": v, "tol": max(abs(v) * rtol, 1e-300), "prep": prep,
                       "meta": meta or {"fn": fn, "args": [float(a) for a in args], "value": v}})
     for x in xs:
@@ -76,7 +107,7 @@ def enclosure_cases(ctx, atm):
             lemma = "mixed_is_liquid"
         else:
             lemma = "mixed_blend"
-        marg = T if shape == 0 else np.asarray([T, T])       # e_eq_mixed_mk does not accept 0-d arrays by design
+        marg = arg                                           # float, 0-d array, 1-d array alike (docstring: float or ndarray)
         add("e_eq_mixed_mk", f"e_eq_mixed_mk {encl.rlit(T)}", [T], pick(atm.e_eq_mixed_mk(marg)),
             f"rewrite {lemma} by (unfold c_triple_point_water; lra). {UNF_SAT}", 1e-10)
     for T, p in zip(Ts[::2], ps * 10):
@@ -169,6 +200,36 @@ def _law_sweep_body(ctx, atm, out):
         except Exception as e:  # noqa
             out.append(("array-call-raises:" + fname, f"{label} on ordinary float64 arrays raised {type(e).__name__}: {e}",
                         {"law": "arguments-untouched", "fn": label}))
+
+    # rank of the arguments: every function of the property is element-wise -- a 0-d array, a (6,) profile, a (2, 3) field
+    # and a (1, 3, 2) field of the same numbers must give the numbers of the scalar calls, in the shape of the input
+    for fname, args in pure_calls:
+        label = fname + ("" if len(args) < 3 or not callable(args[-1]) else "[e_eq=e_eq_mixed_mk]")
+        nums = [a for a in args if isinstance(a, np.ndarray)]
+        rest = [a for a in args if not isinstance(a, np.ndarray)]
+        try:
+            want = np.array([float(getattr(atm, fname)(*[float(a[j]) for a in nums], *rest)) for j in range(6)])
+        except Exception as e:  # noqa
+            out.append(("scalar-call-raises:" + fname, f"{label} on plain floats raised {type(e).__name__}: {e}",
+                        {"law": "rank", "fn": label}))
+            continue
+        for shp in ((), (6,), (2, 3), (1, 3, 2), (6, 1)):
+            try:
+                if shp == ():
+                    got = np.array([np.asarray(getattr(atm, fname)(*[np.array(a[j]) for a in nums], *rest), dtype=float).reshape(())
+                                    for j in range(6)])
+                    ok = True
+                else:
+                    r = np.asarray(getattr(atm, fname)(*[a.reshape(shp).copy() for a in nums], *rest), dtype=float)
+                    ok = r.shape == shp
+                    got = r.reshape(-1) if ok else r
+            except Exception as e:  # noqa
+                out.append((f"rank-raises:{fname}", f"{label} raised {type(e).__name__}: {e} for arguments of shape {shp} "
+                            f"(0-d arrays, profiles and fields are all ndarrays)", {"law": "rank", "fn": label, "shape": list(shp)}))
+                continue
+            if not ok or not np.all(np.abs(got - want) <= 1e-13 * np.abs(want)):
+                out.append((f"rank-differs:{fname}", f"{label} on arguments of shape {shp} gives {np.asarray(got).tolist()}, the scalar "
+                            f"calls on the same numbers give {want.tolist()}", {"law": "rank", "fn": label, "shape": list(shp)}))
 
     def rel(a, b):
         return np.abs(a - b) / np.maximum(np.maximum(np.abs(a), np.abs(b)), 1e-300)
@@ -350,6 +411,13 @@ def replay(ctx, rec):
     fails, _ = law_sweep(ctx, atm)
     f2, _ = exact_fraction_check(atm)
     sig = rec.get("signature")
+    if str(sig).startswith("raises:"):       # an exception while the enclosure cases were prepared
+        n0 = len(ctx.failures)
+        enclosure_cases(ctx, atm)
+        again = [f for f in ctx.failures[n0:] if f.signature == sig]
+        for f in again:
+            print("still fails:", f.what)
+        return 1 if again else 0
     hit = [f for f in fails + f2 if f[0] == sig]
     for f in hit:
         print("still fails:", f[1])
